@@ -96,31 +96,62 @@ def validId : Bytes → Bool
   | [] => false
   | b :: r => if isDigit b then r.all isDigit else true
 
+/-- one step of the lexer: end of input, skipped white space, one token, or an error -/
+inductive Step where
+  | eof
+  | skip (rest : Bytes)
+  | tok (t : Tok) (rest : Bytes)
+  | fail
+  deriving Repr, DecidableEq
+
+/-- what the first byte of a token announces -/
+inductive BCls where
+  | space | quote | punct (t : Tok) | dash | idb | bad
+  deriving Repr, DecidableEq
+
+def bcls (b : UInt8) : BCls :=
+  if isSpace b then .space
+  else if b = DQ then .quote
+  else if b = 0x7b then .punct .lbrace
+  else if b = 0x7d then .punct .rbrace
+  else if b = 0x5b then .punct .lbrack
+  else if b = 0x5d then .punct .rbrack
+  else if b = 0x3d then .punct .eq
+  else if b = 0x3b then .punct .semi
+  else if b = 0x2c then .punct .comma
+  else if b = 0x2d then .dash
+  else if isIdByte b then .idb
+  else .bad
+
+def lexStep : Bytes → Step
+  | [] => .eof
+  | b :: r =>
+    match bcls b with
+    | .space => .skip r
+    | .quote =>
+      (match scanQ r with
+       | some (body, rest) => .tok (.str body) rest
+       | none => .fail)
+    | .punct t => .tok t r
+    | .dash =>
+      (match r with
+       | c :: r' => if c = 0x3e then .tok .arrow r' else .fail
+       | [] => .fail)
+    | .idb =>
+      if validId ((b :: r).takeWhile isIdByte) then
+        .tok (.id ((b :: r).takeWhile isIdByte)) ((b :: r).dropWhile isIdByte)
+      else .fail
+    | .bad => .fail
+
+/-- the lexer; every step consumes at least one byte, so `fuel = length + 1` suffices -/
 def lexF : Nat → Bytes → Option (List Tok)
   | 0, _ => none
-  | _ + 1, [] => some []
-  | f + 1, b :: r =>
-    if isSpace b then lexF f r
-    else if b = DQ then
-      match scanQ r with
-      | some (body, rest) => (lexF f rest).map (Tok.str body :: ·)
-      | none => none
-    else if b = 0x7b then (lexF f r).map (Tok.lbrace :: ·)
-    else if b = 0x7d then (lexF f r).map (Tok.rbrace :: ·)
-    else if b = 0x5b then (lexF f r).map (Tok.lbrack :: ·)
-    else if b = 0x5d then (lexF f r).map (Tok.rbrack :: ·)
-    else if b = 0x3d then (lexF f r).map (Tok.eq :: ·)
-    else if b = 0x3b then (lexF f r).map (Tok.semi :: ·)
-    else if b = 0x2c then (lexF f r).map (Tok.comma :: ·)
-    else if b = 0x2d then
-      match r with
-      | c :: r' => if c = 0x3e then (lexF f r').map (Tok.arrow :: ·) else none
-      | [] => none
-    else if isIdByte b then
-      let w := (b :: r).takeWhile isIdByte
-      let rest := (b :: r).dropWhile isIdByte
-      if validId w then (lexF f rest).map (Tok.id w :: ·) else none
-    else none
+  | f + 1, s =>
+    match lexStep s with
+    | .eof => some []
+    | .skip r => lexF f r
+    | .tok t r => (lexF f r).map (t :: ·)
+    | .fail => none
 
 def lex (s : Bytes) : Option (List Tok) := lexF (s.length + 1) s
 
